@@ -433,6 +433,9 @@ class Ctx:
     def new_red(self, kind, ns, body, outer_rank, dtype, label=""):
         r = Red(kind, ns, body, outer_rank, dtype, label)
         self.reds[r.decl().get_id()] = r
+        for lab, fn in getattr(self, "red_hooks", []):
+            if lab == label:
+                fn(r)
         return r
 
 
